@@ -45,6 +45,10 @@ DOCS = {
         "b": {"oneOf": [{"not": {"type": "null"}}, False, True], "allOf": [{"minimum": 1}]},
         "c": {"type": "object", "title": "Inner", "additionalProperties": {"type": "array", "items": [{"type": "integer"}], "additionalItems": False}}},
         "required": ["a", "zz", "b"], "dependencies": {"a": ["b", "c"], "b": {"required": ["c", "a"]}}},
+    "undeclared_required_and_sets": {"type": "object", "title": "Root", "properties": {"a": {"type": "integer"},
+                                     "o": {"type": "object", "title": "Inner", "required": ["k3", "k1", "k2"], "dependencies": {"k1": ["k2", "k3", "k0"]}, "enum": [{"k1": 1}, {"k2": 2}, {"k3": 3}]}},
+                                     "required": ["z1", "a", "z2", "z3", "o"], "patternProperties": {"^p": {"type": "integer"}, "^q": {"type": "string"}, "^r": {"type": "null"}},
+                                     "definitions": {"d3": {"type": "integer"}, "d1": {"type": "string"}, "d2": {"type": "object", "title": "D2", "required": ["y", "x", "w"]}}},
     "unsupported_message": {"type": "object", "title": "Root", "if": {}, "then": {}, "else": {}},
 }
 
@@ -258,7 +262,7 @@ def harnesses(ctx) -> List[H]:
     pre = ["0 <= ka1 < 12", "0 <= kb1 < 2", "0 <= ka2 < 12", "0 <= kb2 < 2"]
     for name in DOCS:
         hs.append(mk(f"c09_{name}", "ka1: int, kb1: int, ka2: int, kb2: int", pre, f"return deterministic({name!r}, ka1, kb1, ka2, kb2)", timeout=400, group="oracle",
-                     tier="quick" if name in ("same_title_two_keywords", "definitions", "imports_many_kinds") else "thorough",
+                     tier="quick" if name in ("same_title_two_keywords", "definitions", "imports_many_kinds", "undeclared_required_and_sets") else "thorough",
                      covers=f"document {name}: outputs equal under two symbolic set-order oracles"))
     hs.append(mk("c09__oracle_active", "ka: int, kb: int", ["0 <= ka < 6", "0 <= kb < 6"], "return not oracle_active('same_title_two_keywords', ka, kb)", kind="witness", timeout=60))
     return hs
